@@ -282,6 +282,15 @@ def pureEval (toks : List String) : Option String :=
     | .incomplete => some "out incomplete 0"
     | .error e => some s!"out err {showErr e}"
     | .panic _ => some "out panic"
+  | ["hparseat", k, h] =>
+    let k := k.toNat?.getD 0
+    let bs := unhex h
+    -- a cursor beyond the end reads nothing
+    match Header.parse (bs.drop k) with
+    | .header hd len used => some s!"out hdr {showHeader hd} {len} {k + used}"
+    | .incomplete => some s!"out incomplete {k}"
+    | .error e => some s!"out err {showErr e}"
+    | .panic _ => some "out panic"
   | ["hformat", bits, opc, mask, len] =>
     match parseHeaderToks bits opc mask with
     | none => some "out badheader"
@@ -317,7 +326,7 @@ def pureEval (toks : List String) : Option String :=
   | _ => none
 
 def pureTags : List String :=
-  ["closecode", "opcode", "hparse", "hformat", "fformat", "mask", "utf8", "utf8c"]
+  ["closecode", "opcode", "hparse", "hparseat", "hformat", "fformat", "mask", "utf8", "utf8c"]
 
 
 /-! ### monitors on the implementation's pure outputs -/
@@ -351,6 +360,19 @@ def monPure (inp : List String) (implOut : List String) : List String :=
       else if !(h.size == bs.length && lenTok.toNat? == some bs.length) then ["mon C18 FAIL hformat-size"]
       else if bs.length != minimal then ["mon C18 FAIL hformat-not-minimal"]
       else ["mon C18 ok"]
+  | ["hparseat", k, h], "out" :: rest =>
+    -- C18: decoding consumes exactly the encoded bytes, wherever the cursor started
+    let k := k.toNat?.getD 0
+    let bs := (unhex h).drop k
+    match Spec.rawHeader bs, rest with
+    | none, ["incomplete", pos] => if pos.toNat? == some k then ["mon C18 ok"] else ["mon C18 FAIL hparseat-incomplete-moved-cursor"]
+    | none, _ => ["mon C18 FAIL hparseat-incomplete"]
+    | some rh, ["hdr", _, _, _, len, pos] =>
+      if !Spec.isDefinedOpcode rh.opcode then ["mon C18 FAIL hparseat-reserved-opcode-accepted"]
+      else if len.toNat? == some rh.len && pos.toNat? == some (k + rh.size) then ["mon C18 ok"]
+      else ["mon C18 FAIL hparseat-consumed-wrong-byte-count"]
+    | some rh, "err" :: _ => if Spec.isDefinedOpcode rh.opcode then ["mon C18 FAIL hparseat-spurious-error"] else ["mon C18 ok"]
+    | some _, _ => ["mon C18 FAIL hparseat-shape"]
   | ["hparse", h], "out" :: rest =>
     let bs := unhex h
     match Spec.rawHeader bs, rest with
@@ -407,14 +429,16 @@ partial def runCase (lines : Array String) : Array String := Id.run do
       -- gather the implementation's output lines of this op
       let mut j := i + 1
       let mut ev : Events := {}
-      let mut iop : Mon.ImplOp := { body := rest.filter (fun t => !t.startsWith "m=") }
+      let mut iop : Mon.ImplOp := { body := rest.filter (fun t => !t.startsWith "m="),
+                                    masks := (parseMasks toks).map Mask.toBytes }
       while j < lines.size do
         let t := words lines[j]!
         match t with
         | "io" :: evs => ev := parseIo evs; iop := { iop with io := evs.filter (· != "-") }; j := j + 1
         | "res" :: r => iop := { iop with res := r }; j := j + 1
         | "wire" :: w :: _ => iop := { iop with wire := unhex w }; j := j + 1
-        | "can" :: cs => iop := { iop with canR := kv cs "r" == some "1", canW := kv cs "w" == some "1" }; j := j + 1
+        | "can" :: cs => iop := { iop with canR := kv cs "r" == some "1", canW := kv cs "w" == some "1",
+                                           mu := ((kv cs "mu").bind String.toNat?).getD 0 }; j := j + 1
         | "new" :: r =>
           if r.head? != some "ok" then
             ic := { ic with newOk := false }
@@ -947,14 +971,16 @@ partial def runTpCase (lines : Array String) : Array String := Id.run do
       out := out.push line
       let mut j := i + 1
       let mut ev : Events := {}
-      let mut iop : Mon.ImplOp := { body := rest.filter (fun t => !t.startsWith "m=") }
+      let mut iop : Mon.ImplOp := { body := rest.filter (fun t => !t.startsWith "m="),
+                                    masks := (parseMasks (words line)).map Mask.toBytes }
       while j < lines.size do
         let t := words lines[j]!
         match t with
         | "io" :: evs => ev := parseIo evs; iop := { iop with io := evs.filter (· != "-") }; j := j + 1
         | "res" :: r => iop := { iop with res := r }; j := j + 1
         | "wire" :: w :: _ => iop := { iop with wire := unhex w }; j := j + 1
-        | "can" :: cs' => iop := { iop with canR := kv cs' "r" == some "1", canW := kv cs' "w" == some "1" }; j := j + 1
+        | "can" :: cs' => iop := { iop with canR := kv cs' "r" == some "1", canW := kv cs' "w" == some "1",
+                                            mu := ((kv cs' "mu").bind String.toNat?).getD 0 }; j := j + 1
         | _ => break
       i := j
       let mut me := if sd == "c" then cs else ss
